@@ -49,12 +49,12 @@ type Call struct {
 type Rec struct{ M, L, C int }
 
 type View struct {
-	Status int      `json:"status"` // 0 NotReady 1 WaitInit 2 Ready
-	Closed bool     `json:"closed"`
-	Cur    int      `json:"cur"` // -1 = nil
-	FsMap  [][2]int `json:"fsmap"`
-	Store  []Rec    `json:"store"`
-	Cfgs   []int    `json:"cfgs"`
+	Status int        `json:"status"` // 0 NotReady 1 WaitInit 2 Ready
+	Closed bool       `json:"closed"`
+	Cur    int        `json:"cur"` // -1 = nil
+	FsMap  [][2]int   `json:"fsmap"`
+	Store  []Rec      `json:"store"`
+	Cfgs   []int      `json:"cfgs"`
 	Mnts   [][][2]int `json:"mnts"`
 }
 
@@ -369,7 +369,17 @@ func (w *world) do(o Op) (res int) {
 
 func (w *world) view() View {
 	status, fm, recs, serr := w.srv.VerifDump()
-	v := View{Status: int(status), Closed: serr != nil, Cur: -1, FsMap: [][2]int{}, Store: []Rec{}, Cfgs: []int{}, Mnts: [][][2]int{}}
+	// canonical status: 0 NotReady 1 WaitInit 2 Ready (by the package's constants, not their numeric values)
+	st := 9
+	switch status {
+	case fusemanager.FuseManagerNotReady:
+		st = 0
+	case fusemanager.FuseManagerWaitInit:
+		st = 1
+	case fusemanager.FuseManagerReady:
+		st = 2
+	}
+	v := View{Status: st, Closed: serr != nil, Cur: -1, FsMap: [][2]int{}, Store: []Rec{}, Cfgs: []int{}, Mnts: [][][2]int{}}
 	if f, ok := w.srv.VerifCurFS().(*recFS); ok && f != nil {
 		v.Cur = f.id
 	} else if w.srv.VerifCurFS() != nil {
@@ -430,8 +440,8 @@ func exec(c Case) ([]Obs, []string) {
 	// oracle state, derived from observations only
 	initedThisProcess := false // an Init was requested since the process started
 	lastInitOK := false
-	lastInitInst := -1       // instance built by the last Init that returned OK
-	lastInitCfg := -1        // config id passed to it
+	lastInitInst := -1        // instance built by the last Init that returned OK
+	lastInitCfg := -1         // config id passed to it
 	pending := map[int]bool{} // records left unrestored by the last Init (store \ fsMap right after it)
 	for i, o := range c.Ops {
 		ninst := len(w.insts)
@@ -446,6 +456,9 @@ func exec(c Case) ([]Obs, []string) {
 
 		if res == 2 {
 			bad(i, "the RPC method panicked")
+		}
+		if v.Status == 9 {
+			bad(i, "status is none of NotReady / WaitInit / Ready")
 		}
 		// requests before initialisation fail (and reach no filesystem)
 		if !initedThisProcess && (o.Op == "mount" || o.Op == "check" || o.Op == "unmount") {
@@ -632,7 +645,7 @@ func coqObs(o Obs) string {
 		cs[i] = fmt.Sprintf("cl %d %s %d %d", c.I, []string{"KMount", "KCheck", "KUnmount"}[c.K], c.M, c.L)
 	}
 	v := o.View
-	st := "NotReady"
+	st := "NotReady" // an unknown status value (9) prints as NotReady and is reported by the oracle
 	switch v.Status {
 	case 1:
 		st = "WaitInit"
@@ -748,6 +761,9 @@ func gen(r *hx.Rng) Case {
 			c.Ops = append(c.Ops, genInit(r))
 		case 4:
 			c.Ops = append(c.Ops, Op{Op: "close"})
+			if r.Chance(1, 4) {
+				c.Ops = append(c.Ops, Op{Op: "close"})
+			}
 			if r.Chance(2, 3) {
 				c.Ops = append(c.Ops, Op{Op: "restart"})
 				likely = likely[:0]
@@ -755,7 +771,16 @@ func gen(r *hx.Rng) Case {
 		case 5:
 			c.Ops = append(c.Ops, Op{Op: "restart"})
 			if r.Chance(3, 4) {
-				c.Ops = append(c.Ops, genInit(r))
+				o := genInit(r)
+				if o.Stage == "run" && len(likely) > 0 && r.Chance(1, 3) {
+					// a restore that fails at a random record of the populated store
+					o.Script = nil
+					for j := r.Intn(len(likely)); j > 0; j-- {
+						o.Script = append(o.Script, true)
+					}
+					o.Script = append(o.Script, false)
+				}
+				c.Ops = append(c.Ops, o)
 			}
 		}
 	}
@@ -805,7 +830,7 @@ func main() {
 						ctx.Count("mount.already-mounted")
 					}
 				}
-				if ob.Res == 1 && prev.Status == 2 && prev.Cur < 0 {
+				if ob.Res != 0 && i > 0 && prev.Status == 2 && prev.Cur < 0 {
 					ctx.Count("mount.no-filesystem")
 				}
 			case "unmount":
@@ -825,6 +850,46 @@ func main() {
 			}
 			if (o.Op == "mount" || o.Op == "check" || o.Op == "unmount") && (i == 0 || prev.Status != 2) {
 				ctx.Count("request.not-ready")
+			}
+		}
+		// input-only counters (these, not the behaviour-dependent ones above, are what the driver requires to be
+		// non-zero: a broken implementation must surface as a VIOLATION, not as a generator-sanity failure)
+		inited, closedOnce, sinceRestart := false, false, 0
+		for i, o := range c.Ops {
+			switch o.Op {
+			case "init":
+				ctx.Count("in.init." + o.Stage)
+				if inited {
+					ctx.Count("in.reinit")
+				}
+				if i > 0 && c.Ops[i-1].Op == "restart" && sinceRestart > 0 {
+					ctx.Count("in.init-after-restart-with-history")
+				}
+				for _, b := range o.Script {
+					if !b {
+						ctx.Count("in.init-script-failure")
+						break
+					}
+				}
+				inited = true
+			case "mount", "check", "unmount":
+				if !inited {
+					ctx.Count("in.request-before-init")
+				}
+				if !o.Ok {
+					ctx.Count("in." + o.Op + "-failure")
+				}
+				if o.M == 0 {
+					ctx.Count("in.kernel-mounted-mountpoint")
+				}
+			case "close":
+				if closedOnce {
+					ctx.Count("in.close-twice")
+				}
+				closedOnce = true
+			case "restart":
+				inited, closedOnce = false, false
+				sinceRestart = i
 			}
 		}
 		ctx.CountN("ops", len(c.Ops))
